@@ -245,4 +245,12 @@ def features(spec):
         labs.add("crossed-derived")
     for ft in spec.get("scenario", []) or []:
         labs.add("scenario:" + str(ft))
+    sk = spec.get("skeleton")
+    if isinstance(sk, dict) and sk.get("kind") == "round":
+        labs.add("round-skeleton")
+        labs.add("round:extra=%s" % sk.get("extra"))
+        labs.add("round:crossed=%s%s" % (sk.get("crossed"), "+complex" if sk.get("complex") else ""))
+        if sk.get("weighted") != "no":
+            labs.add("round:weighted=%s" % sk.get("weighted"))
+        labs.add("round:how=%s" % sk.get("how"))
     return sorted(labs)
